@@ -76,9 +76,6 @@ theorem C56_post_cut (dnsVals : Option (List Bytes)) (body : Bytes) (ra ca : Opt
       (unpack (body.take maxPost)).map (setClientSubnet ra ca) := by
   simp [requestToDnsMsg, unpackInput_post]
 
-def bigBody : Bytes := List.replicate 8193 0
-theorem bigBody_length : bigBody.length = 8193 := List.length_replicate ..
-
 /-- **C56_witness_oversize**: an 8193-byte body whose first 8192 bytes unpack is cut and forwarded. -/
 theorem C56_witness_oversize : ¬ OversizeRejected := by
   intro h
